@@ -108,7 +108,8 @@ PROPS = {
     },
     "C19": {
         "lean_modules": ["C19"],
-        "rule": "seeded operation histories of 5-40 (thorough: 5-200) steps over a population of 2-8 live tensors (construction row-/column-major, lazy and physical transposes, UT, slicing, Clone, Materialize, SafeT, Reshape, Memset, arithmetic / unary operations in safe, unsafe, reuse and incr modes with destinations drawn from the population, ReturnTensor, pool on/off, forced GC); after every step every live tensor is dumped (metadata, elements, raw storage) and compared with the value-semantics model; every int slice the harness passes to the library is kept, re-checked after every later step (argmut) and occasionally overwritten by the harness (scribble) to expose retained caller slices",
+        "own_pass": True,
+        "rule": "seeded operation histories of 5-40 (thorough: 5-200) steps over a population of 2-8 live tensors (construction row-/column-major, lazy and physical transposes, UT, slicing, Clone, Materialize, SafeT, Reshape, Memset, arithmetic / unary operations in safe, unsafe, reuse and incr modes with destinations drawn from the population, ReturnTensor, pool on/off, forced GC); after every step every live tensor is dumped (metadata, elements, raw storage) and compared with the value-semantics model; every int slice the harness passes to the library is kept, re-checked after every later step (argmut) and occasionally overwritten by the harness (scribble) to expose retained caller slices; second pass over the same histories with the library's pool-event hook (build tag verif) switched on: the trace of BorrowInts / ReturnInts events, of the metadata slices (shape, strides, backup shape / strides, transposeWith) every live tensor refers to before and after each step, and of the slices the harness passed in is judged by the Lean function TM.Own.checkTraceR (no double return, no return of a referenced or caller-owned slice, no tensor referring to a pooled, caller-owned or shared slice)",
     },
     "C20": {
         "lean_modules": ["C20"],
